@@ -79,6 +79,9 @@ type entSpec struct {
 	// CreateIndex an applied write must inherit when it is not the one stored under the key
 	// (a node write carrying the ID of a registration stored under another name is a rename).
 	createOf func(st *state.Store) (create uint64, ok bool)
+	// inadmissible, when set, decides from the store BEFORE the call (by the documented rule of
+	// the command, not by running it) whether the write itself must be refused, and why.
+	inadmissible func(st *state.Store) string
 }
 
 type entPre struct {
@@ -86,6 +89,7 @@ type entPre struct {
 	qual       string
 	create     uint64
 	haveCreate bool
+	refusal    string
 }
 
 func entityCond(sp entSpec) *cond {
@@ -99,6 +103,9 @@ func entityCond(sp entSpec) *cond {
 			p := entPre{ent: sp.read(st), qual: q}
 			if sp.createOf != nil {
 				p.create, p.haveCreate = sp.createOf(st)
+			}
+			if sp.inadmissible != nil {
+				p.refusal = sp.inadmissible(st)
 			}
 			return p
 		},
@@ -136,6 +143,18 @@ func entityCond(sp entSpec) *cond {
 				if !reported && matched && mismatchRes(res) {
 					return sp.typ + ":matched-but-refused", fmt.Sprintf("res=%s cidx=%d pre=%+v", res, sp.cidx, pre)
 				}
+				if sp.inadmissible != nil && matched {
+					refusal := p.(entPre).refusal
+					if refusal != "" {
+						run.Tag("inadmissible:" + sp.typ + ":" + refusal)
+					}
+					if reported && refusal != "" {
+						return sp.typ + ":inadmissible-write-applied:" + refusal, fmt.Sprintf("res=%s cidx=%d pre=%+v post=%+v", res, sp.cidx, pre, post)
+					}
+					if !reported && refusal == "" {
+						return sp.typ + ":matched-and-admissible-but-refused", fmt.Sprintf("res=%s cidx=%d pre=%+v", res, sp.cidx, pre)
+					}
+				}
 			}
 			if !applied {
 				return "", ""
@@ -171,6 +190,13 @@ func entityCond(sp entSpec) *cond {
 			return "", ""
 		},
 	}
+}
+
+func cfgContentStr(val string, flag bool) string {
+	if flag {
+		return val + "|flag"
+	}
+	return val
 }
 
 // ---------------------------------------------------------------- entity readers (public read API)
@@ -221,7 +247,7 @@ func readChk(n, id string) func(st *state.Store) ent {
 		if e == nil {
 			return ent{}
 		}
-		return ent{true, e.CreateIndex, e.ModifyIndex, e.ServiceID + "/" + e.Output, ""}
+		return ent{true, e.CreateIndex, e.ModifyIndex, e.ServiceID + "/" + e.Output + "/" + e.Status, ""}
 	}
 }
 
@@ -232,8 +258,8 @@ func readCfg(kind, name string) func(st *state.Store) ent {
 		if e == nil {
 			return ent{}
 		}
-		v, s := cfgContent(e)
-		return ent{true, e.GetRaftIndex().CreateIndex, e.GetRaftIndex().ModifyIndex, v, s}
+		v, s, fl := cfgContent(e)
+		return ent{true, e.GetRaftIndex().CreateIndex, e.GetRaftIndex().ModifyIndex, cfgContentStr(v, fl), s}
 	}
 }
 
